@@ -25,6 +25,7 @@ from arr import BS
 
 NOGEN = ["-noGenerateSpecTE"]
 F8 = "F8-empty-split-before-used-split-regrows"
+F9 = "F9-rebuilt-split-cut-before-unused-stripes-check-read-errors"
 
 
 def plimit(n, s, l):
@@ -95,7 +96,7 @@ def model_part(v, tier, cov):
     if quick:
         k, mb, lim, st = 3, 4, [0, 1, 2, 3, 4, 5], 5
     else:
-        k, mb, lim, st = 4, 5, [0, 1, 2, 3, 4, 5, 6, 7], 6
+        k, mb, lim, st = 4, 4, [0, 1, 3, 4, 5], 5
     r = tlc("SplitMapMC", mc_cfg("C17-mc", k, mb, lim, st))
     note("SplitMapMC: 1..%d splits, <= %d stripes, block 2 units, limits %s (0 = none), all sequences of <= %d steps" % (k, mb, lim, st), r)
     if r.violated:
@@ -135,7 +136,13 @@ class SplitObserver(observer.Observer):
         return data
 
 
+class Diverged(Exception):
+    pass
+
+
 class Twin:
+    keep_going = False
+
     def __init__(self, seed, nd, np_, ks, n, data_seed=None):
         self.rng = random.Random(seed)
         self.seed, self.nd, self.np, self.n = seed, nd, np_, n
@@ -151,6 +158,7 @@ class Twin:
         self.pristine = True      # no parity file was lost / rebuilt: the whole streams must be identical
         self.nextv = 1
         self.tick = 10
+        self.notes = []
         self.counts = {"sync": 0, "fix": 0, "grow": 0, "shrink": 0, "cross": 0, "oos": 0, "tail": 0, "drop": 0, "add": 0,
                        "loss": 0, "positions_compared": 0}
         for d in range(nd):
@@ -169,7 +177,8 @@ class Twin:
 
     def remove(self, d, name):
         for a in (self.A, self.T):
-            a.remove(d, name)
+            if os.path.lexists(a.path(d, name)):
+                a.remove(d, name)
 
     def files(self, d):
         p = self.A.ddir(d)
@@ -178,6 +187,8 @@ class Twin:
     def problem(self, sig, text):
         self.problems.append((sig, text))
         self.steps.append("!! %s: %s" % (sig, text[:300]))
+        if sig != F9 and not self.keep_going:
+            raise Diverged()              # the twins are no longer comparable: the history ends here
 
     # ---- observation
     def cs(self, a):
@@ -339,6 +350,7 @@ class Twin:
                     self.problem("records-changed", "%s of level %d changed the recorded sizes %r -> %r" % (cmd, l, rec0, rec1))
             self.events.append({"B": BS, "cmd": cmd, "level": l, "sizes0": sizes0, "fs0": fs0[l], "lims": self.lims(l, n),
                                 "total": total, "ok": ok, "sizes1": sizes1, "fs1": fs1[l], "const": self.const,
+                                "recorded": all(x is not None for x in rec0),
                                 "step": len(self.steps), "seed": self.seed})
         return r
 
@@ -370,8 +382,23 @@ class Twin:
         rt = self.T.run("check")
         ra = self.runA("check")
         self.steps.append("%s; check -> rc %d (twin %d)" % (what, ra.rc, rt.rc))
-        if ra.rc != rt.rc or ra.rc != 0:
-            self.problem("check-not-clean", "%s: check rc %d, twin %d: %s" % (what, ra.rc, rt.rc, [t for t in ra.tags if t[0] in ("error", "parity_error")][:4]))
+        ea = sorted(tuple(t[:4]) for t in ra.tags if t[0] in ("error", "parity_error"))
+        et = sorted(tuple(t[:4]) for t in rt.tags if t[0] in ("error", "parity_error"))
+        extra = [e for e in ea if e not in et]
+        ca = self.cs(self.A)
+        used = self.used_positions(ca) if ca else set()
+        if extra and not [e for e in et if e not in ea] and \
+                all(e[0] == "parity_error" and e[1].isdigit() and int(e[1]) not in used and "Read error" in e[3] for e in extra):
+            # a rebuilt split file ends at its last stripe with data; the unused stripes behind it cannot be read
+            self.problem(F9, "%s: check rc %d (twin %d): read errors on unused stripes %r of rebuilt split files; files %r, recorded %r"
+                         % (what, ra.rc, rt.rc, sorted(set(int(e[1]) for e in extra)), [self.fsizes(l) for l in range(self.np)],
+                            [self.rec_sizes(ca, l) for l in range(self.np)]))
+        elif ra.rc != rt.rc or ea != et:
+            self.problem("check-differs-from-twin", "%s: check rc %d %r, twin rc %d %r" % (what, ra.rc, ea[:4], rt.rc, et[:4]))
+        elif ra.rc != 0:
+            # the same complaints on the single-file twin: not a matter of splitting (noted for C01)
+            self.counts["check_errors_same_as_twin"] = self.counts.get("check_errors_same_as_twin", 0) + 1
+            self.notes.append("%s: check rc %d on both arrays: %r" % (what, ra.rc, ea[:4]))
 
     # ---- history steps
     def capacity(self, l):
@@ -514,6 +541,7 @@ class Twin:
         if budget >= 2 or rng.random() < 0.4:
             d = rng.randrange(self.nd)
             self.A.lose_disk(d)
+            self.T.lose_disk(d)
             lost.append("disk %d" % d)
             budget -= 1
         for l in levels[:budget]:
@@ -526,9 +554,13 @@ class Twin:
             for s in which:
                 if os.path.exists(self.A.pfile(l, s)):
                     os.remove(self.A.pfile(l, s))
+            self.T.lose_parity(l)              # the twin loses the equivalent device: the whole level
             lost.append("level %d splits %r" % (l, which))
         self.counts["loss"] += 1
         what = "lose " + ", ".join(lost)
+        rt = self.T.run("fix")
+        if rt.rc != 0:
+            self.problem("twin-fix-failed", what + ": " + rt.err[-300:])
         ra = self.fix(what)
         if ra.rc == 0:
             now = {d: self.A.snapshot_tree(self.A.conf.disk_names[d]) for d in range(self.nd)}
@@ -595,6 +627,7 @@ def _scenario(job):
         rng = random.Random(seed * 7 + 1)
         if kind == "f8":
             t = Twin(seed, 2, 1, [3], 0, data_seed)
+            t.keep_going = True
             t.directed_f8()
         else:
             ks = [rng.randint(1, kmax) for _ in range(np_)]
@@ -603,9 +636,12 @@ def _scenario(job):
             n = choose_limit(rng, ks, np_)
             t = Twin(seed, nd, np_, ks, n, data_seed)
             t.steps.append("splits %r, --test-parity-limit %d, limits %r" % (ks, n, [t.lims(l) for l in range(np_)]))
-            t.history(nsteps)
+            try:
+                t.history(nsteps)
+            except Diverged:
+                pass
         return {"seed": seed, "nd": nd, "np": np_, "kind": kind, "kmax": kmax, "nsteps": nsteps, "events": t.events,
-                "problems": t.problems, "steps": t.steps, "counts": t.counts, "splits": list(t.A.conf.splits), "n": t.n, "err": None}
+                "problems": t.problems, "notes": t.notes, "steps": t.steps, "counts": t.counts, "splits": list(t.A.conf.splits), "n": t.n, "err": None}
     except Exception:
         return {"seed": seed, "kind": kind, "err": traceback.format_exc()}
     finally:
@@ -638,9 +674,11 @@ def validate(events, tag):
         last = r.out[r.out.rfind("State "):]
         m = re.search(r"/\\ diag = (.*?)(?=\n/\\ |\n\n|\Z)", last, re.S)
         diag = m.group(1)[:2500] if m else str(r.violated)
-        m = re.search(r'<<"(?:sync|fix)", (\d+)', diag)
+        m = re.search(r'<<\s*"(?:sync|fix)",\s*(\d+)', diag)
         idx = int(m.group(1)) if m else 1
         findings.append((base + idx - 1, diag))
+        if len(findings) >= 8:
+            break                         # enough to report; each further finding costs one more TLC run
         rest = rest[idx:]
         base += idx
     return findings, states
@@ -681,6 +719,7 @@ def binding_part(v, tier, cov):
                     % (sig, e["cmd"], e["level"], e["step"], s["seed"], s["kind"], e["sizes0"], e["fs0"], e["lims"], e["total"],
                        e["sizes1"], e["fs1"], e["ok"], diag[:1200]),
                     {"kind": "split-scenario", "seed": s["seed"], "shape": [s["nd"], s["np"]], "splits": s["splits"], "limit": s["n"],
+                     "history": s["kind"], "kmax": s["kmax"], "nsteps": s["nsteps"],
                      "steps": s["steps"][:e["step"] + 1], "event": e, "diag": diag}, signature=sig)
     for s in scs:
         seen = set()
@@ -698,7 +737,8 @@ def binding_part(v, tier, cov):
             v.violation("%s: scenario seed=%d (%s, %dd/%dp, splits %r, limit %s): %s" % (sg, s["seed"], s["kind"], s["nd"], s["np"],
                                                                                        s["splits"], s["n"], text),
                         {"kind": "split-scenario", "seed": s["seed"], "shape": [s["nd"], s["np"]], "splits": s["splits"],
-                         "limit": s["n"], "steps": s["steps"], "problem": text}, signature=sg)
+                         "limit": s["n"], "history": s["kind"], "kmax": s["kmax"], "nsteps": s["nsteps"],
+                         "steps": s["steps"], "problem": text}, signature=sg)
     f8 = next(s for s in scs if s["kind"] == "f8")
     cov["binary_exhibits_F8"] = bool(f8["problems"])
     tot = {}
@@ -724,6 +764,26 @@ def binding_part(v, tier, cov):
         if tot.get("cross", 0) == 0 or tot.get("loss", 0) == 0 or tot.get("shrink", 0) == 0:
             raise vlib.ToolFailure("the histories did not exercise the property: %r" % tot)
     return states
+
+
+def replay(obj):
+    """re-execute a recorded violation: obj = the "replay" member of a file under out/replays/C17 (kind split-scenario)."""
+    if obj.get("kind") != "split-scenario":
+        print("replay: TLC counterexample on the model; re-run ./verif check C17 quick")
+        return 2
+    vlib.build("hooks")
+    vlib.build_shim()
+    sc = _scenario((obj["seed"], obj["shape"][0], obj["shape"][1], obj.get("kmax", 4), obj.get("history", "random"),
+                    obj.get("nsteps", 9), None))
+    if sc.get("err"):
+        raise vlib.ToolFailure(sc["err"])
+    f, st = validate(sc["events"], "C17-replay-%d" % obj["seed"])
+    for idx, diag in f:
+        print("resize step rejected: %r\n%s" % (sc["events"][idx], diag[:1500]))
+    for sig, text in sc["problems"]:
+        print("%s: %s" % (sig, text))
+    print("\n".join(sc["steps"]))
+    return 1 if f or sc["problems"] else 0
 
 
 def run(tier):
